@@ -10,7 +10,7 @@ PROP = dict(
                  'no two distinct images of the positions met share a 64-bit hash (Symmetries de-duplicates by hash)'],
 )
 MANIFEST = dict(
-    text="Coq (Properties/C14.v, all closed under the global context): on the rules specification Rules.v, for each of the eight symmetries k "
+    text="Coq (Properties/C14.v, 34 obligations, all closed under the global context): on the rules specification Rules.v, for each of the eight symmetries k "
          "and EVERY raw move value (illegal, off-board, bad type code included) rules_move (img k b) (tm k m) = option_map (img k) (rules_move b m) "
          "(rules_equivariant); roads, flat counts, fullness, reserves, side to move and hence the outcome are invariant; the images compose like "
          "the group table and k / inv k undo each other; the code-shaped TransformMove (int8 flips, direction re-derived from the end point) "
@@ -18,13 +18,17 @@ MANIFEST = dict(
          "C01's refinement theorems the bit-level Position.Move commutes with the symmetries (Ok/Err-wise, results abs-equal, never Panic, the "
          "invariant pos_ok holds again; exact representation limit: no stack of the successor above 64) and through C02's game_over_correct "
          "GameOver / WinDetails are equal, for any two positions satisfying the invariants that show a board and its image. "
+         "THE REBUILT IMAGES (Import3-6.v): image_pos_ok, image_abs: the position Symmetries rebuilds for the k-th map (Position.At of every "
+         "square, permuted, through FromSquares) satisfies pos_ok and abstracts to img k (abs p), so move_equivariant and gameover_invariant hold "
+         "for q := image p s (C14_move_equivariant, C14_gameover_invariant) and, stronger, Move (image p) (TransformMove m) = image (Move p m) "
+         "FIELD FOR FIELD, both failing together, never panicking (move_commutes); an image undone by the inverse symmetry is the position itself "
+         "(image_image_inv). symmetries_firsts: Symmetries(p) is exactly the list of the eight rebuilt images with every entry dropped whose "
+         "Hash() occurred before. symmetries_exact: under no_collision on the eight images every entry is (image k, k) with k the first index "
+         "producing that image, every image is in the list, and no two entries show the same board or have the same Hash(). "
          "Execution: model of Symmetries / TransformMove composed with the proved move model is compared with the implementation on every image of "
          "every generated (position, move); an independent Go oracle with its own eight coordinate maps checks commutation of move application, "
          "invariance of legality / game over / winner / flat counts, and that Symmetries lists each distinct image exactly once paired with the "
          "transform producing it.",
     ref='5.14', technique='Coq proofs (rules_equivariant, road/outcome invariance, TransformMove = tm, Move equivariance via C01) + '
                           'model/implementation differential + independent symmetry oracle',
-    note="Trusted: Coq kernel, extraction, transcription of symmetry/canonical.go. Partial on the theorem side: move_equivariant and "
-         "gameover_invariant are stated for any position q with abs q = img k (abs p) rather than for Symmetry.image (abs (image p s) = "
-         "img k (abs p), i.e. the rebuild through from_squares - which also recomputes the reserves from the default counts - is not proved), "
-         "Pass is excluded as in C01; symmetries_exact is not proved (decided by correspondence + oracle).")
+    note="Trusted: Coq kernel, extraction, transcription of symmetry/canonical.go. The image theorems need, beyond pos_ok, that the reserves of p are the default counts minus the pieces on its board and that its tie-break flag is the default: the MODEL of Symmetries rebuilds through FromSquares on tak.New with the default configuration (the real code passes p.Config(), so custom counts / BlackWinsTies are carried over there; that configuration is covered by execution only). Both hypotheses are proved to hold again for images and successors. Pass is excluded as in C01; moves are transformable and successors within the 64 limit (fits64). no_collision is a hypothesis of symmetries_exact (B) only.")
